@@ -13,7 +13,7 @@ Definition reviewed_state : list reviewed_field := [
      r_status := "reviewed"; r_why := "syntax.Parser.Parse re-initialises the parser for every pattern (third-party; covered by the reused-vs-fresh oracle on corpus/framework/regex)" |};
   {| r_struct := "badRegexpChecker"; r_field := "cause";
      r_sites := [W "badRegexpChecker.VisitExpr" "assign" 1%N];
-     r_status := "reviewed"; r_why := "assigned in VisitExpr before checkPattern reads it (same discipline as ifElseChain.cause, Model_History.iec_links)" |};
+     r_status := "reviewed"; r_why := "assigned in VisitExpr before checkPattern reads it (same discipline as ifElseChain.cause, Model_History.iec_head)" |};
   {| r_struct := "badRegexpChecker"; r_field := "flagStates";
      r_sites := [W "badRegexpChecker.checkPattern" "append" 1%N; W "badRegexpChecker.checkPattern" "reset-truncate" 1%N; W "badRegexpChecker.currentFlagState" "address-taken" 1%N; W "badRegexpChecker.walk" "append" 2%N; W "badRegexpChecker.walk" "assign" 2%N];
      r_status := "reviewed"; r_why := "truncated at the start of checkPattern; pushes and pops are balanced inside walk (same discipline as AstSet.Clear per statement, Model_History.dc_visit)" |};
@@ -31,7 +31,7 @@ Definition reviewed_state : list reviewed_field := [
      r_status := "modelled"; r_why := "Model_History.dc_visit: Clear at the start of checkSwitch/checkSelect" |};
   {| r_struct := "ifElseChainChecker"; r_field := "cause";
      r_sites := [W "ifElseChainChecker.VisitStmt" "assign" 1%N];
-     r_status := "modelled"; r_why := "Model_History.iec_links: assigned before warn reads it" |};
+     r_status := "modelled"; r_why := "Model_History.iec_head: assigned before warn reads it" |};
   {| r_struct := "ifElseChainChecker"; r_field := "visited";
      r_sites := [W "ifElseChainChecker.EnterFunc" "reset-make" 1%N; W "ifElseChainChecker.countIfelseLen" "elem-write" 1%N];
      r_status := "modelled"; r_why := "Model_History.iec_enter: fresh map in EnterFunc; keys are node identities" |};
@@ -49,13 +49,13 @@ Definition reviewed_state : list reviewed_field := [
      r_status := "reviewed"; r_why := "assigned 0 at the start of every simplify pass before any increment" |};
   {| r_struct := "typeAssertChainChecker"; r_field := "cause";
      r_sites := [W "typeAssertChainChecker.VisitStmt" "assign" 1%N];
-     r_status := "modelled"; r_why := "Model_History.tac_links" |};
+     r_status := "modelled"; r_why := "Model_History.tac_head" |};
   {| r_struct := "typeAssertChainChecker"; r_field := "visited";
      r_sites := [W "typeAssertChainChecker.EnterFunc" "reset-make" 1%N; W "typeAssertChainChecker.countTypeAssertions" "elem-write" 1%N];
      r_status := "modelled"; r_why := "Model_History.tac_enter" |};
   {| r_struct := "typeAssertChainChecker"; r_field := "typeSet";
      r_sites := [W "typeAssertChainChecker.countTypeAssertions" "ptr-method:Clear" 1%N; W "typeAssertChainChecker.countTypeAssertions" "ptr-method:Insert" 2%N];
-     r_status := "modelled"; r_why := "Model_History.tac_links: Clear at the start of countTypeAssertions" |};
+     r_status := "modelled"; r_why := "Model_History.tac_head: Clear at the start of countTypeAssertions" |};
   {| r_struct := "typeDefFirstChecker"; r_field := "trackedTypes";
      r_sites := [W "typeDefFirstChecker.WalkFile" "reset-make" 1%N; W "typeDefFirstChecker.walkDecl" "elem-write" 1%N];
      r_status := "modelled"; r_why := "Model_History.tdf_run: fresh map at the start of WalkFile" |};
